@@ -278,6 +278,12 @@ class Interp:
         if name in ('VecDeque::push_back', 'Vec::push'):
             self.log.append(('push_back', str(args[1])))
             return ()
+        if name == 'Extend::extend' and len(args) == 2:
+            v = deref(args[1]) if isinstance(args[1], Ref) else args[1]
+            if isinstance(v, Enum) and v.variant in ('Some', 'None'):
+                if v.variant == 'Some':
+                    self.log.append(('push_back', str(v.payload[0])))
+                return ()
         if name in ('Option::is_some', 'Option::is_none'):
             v = deref(args[0])
             return (v.variant == 'Some') == (name == 'Option::is_some')
